@@ -24,7 +24,7 @@ RULE = ("models x input patterns with at most 2 non-zero inputs (shock i unantic
         "length, method, terminal, guess) for runs that report success")
 MANIFEST_ENTRY = dict(level="exploration", design="DESIGN.md section 4 / C06",
     technique="bounded-exhaustive enumeration of generated non-linear/linear models x input patterns (deviation bound 2) x solver configurations; frame-wise residual substitution into the harness's own expression trees, first-order differential on linear models",
-    text="For 9 generated models every input pattern with <= 2 non-zero inputs over dates 1..3 (quick: all singles + listed pairs; thorough: all pairs) x span lengths {1,2,4,6} x methods x terminal x initial_guess is simulated; for every run that reports success and for EACH frame (information set) every transition equation, evaluated by the harness's own expression trees on that frame's path, holds in every simulated column (leads beyond the span read from the terminal condition in force: first-order continuation of the returned end state, or the input data); the final databox equals the last frame covering each date; shocks, exogenous variables, initial conditions and measurement variables are returned unchanged; on linear models the result equals the first-order simulation of the same inputs; a two-variant model equals the two single-variant models.",
+    text="For 9 generated models every input pattern with <= 2 non-zero inputs over dates 1..3 (quick: all singles + listed pairs; thorough: all pairs) x span lengths {1,2,4,6} x methods x terminal x initial_guess is simulated; for every run that reports success and for EACH frame (information set) every transition equation, evaluated by the harness's own expression trees on that frame's path, holds in every simulated column (leads beyond the span read from the terminal condition in force: first-order continuation of the returned end state, or the input data); the final databox equals the last frame covering each date; shocks, exogenous variables, initial conditions and measurement variables are returned unchanged; on linear models the result equals the first-order simulation of the same inputs; a two-variant model equals the two single-variant models; models with the same equation text but different user context functions, simulated back to back in one process, each satisfy their own equations.",
     note="Trusted: ref/expr evaluator; the first-order simulator for terminal continuation and the linear differential (C01). Runs that report failure (exception) are counted, not gated; every model must succeed on the zero-input case (floor).")
 ASSUMPTIONS = ["the first-order simulator is correct (C01)"]
 
@@ -358,6 +358,66 @@ def check_variants(md, m, res):
             bad("exception", "%s: %s" % (type(e).__name__, msg[:300]))
 
 
+CONTEXT_SRC = """
+!transition-variables
+    y, c
+!transition-shocks
+    e
+!parameters
+    a
+!transition-equations
+    y = a*y[-1] + 0.3 + e;
+    c = resp(y) + 0.2*c[-1];
+"""
+
+
+def check_context_pair(res):
+    """two models with the SAME equation text but different user functions in their contexts, simulated one after the
+    other in one process: each must satisfy its own equations (state shared through the equation text would not)"""
+    funcs = {"A": (lambda v: v), "B": (lambda v: v - 0.5 * (v - 1.0) ** 2), "C": (lambda v: 0.5 * v + 0.1 * v * v)}
+    a = 0.6
+    models_ = {}
+    for k, fn in funcs.items():
+        with contextlib.redirect_stdout(io.StringIO()):
+            m = ir.Simultaneous.from_string(CONTEXT_SRC, context={"resp": fn}, flat=True)
+            m.assign(a=a, y=0.75, c=0.9)
+            m.steady()
+            m.solve()
+        models_[k] = m
+    n_per = 4
+    span = START >> (START + n_per - 1)
+    for method in ("stacked_time", "period_by_period"):
+        for order in (("A", "B", "C"), ("C", "A", "B")):
+            for k in order:
+                m, fn = models_[k], funcs[k]
+                case = {"model": "context_pair_%s" % k, "inputs": [["context", list(order)]], "n_per": n_per, "method": method, "terminal": "first_order", "guess": "first_order"}
+                res.ev()
+                try:
+                    db = ir.Databox.steady(m, START >> (START + n_per + 1))
+                    db["e"][START] = 0.2
+                    db["e"][START + 2] = -0.1
+                    db["y"][START - 1] = db["y"].get_data(START - 1)[0, 0] * 1.2
+                    with contextlib.redirect_stdout(io.StringIO()):
+                        out = m.simulate(db, span, method=method, solver_settings={"step_tolerance": float("inf")})
+                    yv = out["y"].get_data_from_until((START - 1, START + n_per - 1))[:, 0]
+                    cv = out["c"].get_data_from_until((START - 1, START + n_per - 1))[:, 0]
+                    ev = np.nan_to_num(out["e"].get_data_from_until((START - 1, START + n_per - 1))[:, 0])
+                    r1 = yv[1:] - (a * yv[:-1] + 0.3 + ev[1:])
+                    r2 = cv[1:] - (np.array([fn(v) for v in yv[1:]]) + 0.2 * cv[:-1])
+                    res.nt(("context_pair", k, method, order))
+                    res.count("context_pair_runs")
+                    w = max(np.max(np.abs(r1)), np.max(np.abs(r2)))
+                    if not (w <= 1e-7):
+                        res.violation("equation_residual", {"model": "context_pair", "method": method, "what": "own_context_function"}, case,
+                                      "model %s (simulated in the order %s) %s: residuals y %.3e, c %.3e with its own resp()" % (k, order, method, np.max(np.abs(r1)), np.max(np.abs(r2))))
+                except Exception as e:
+                    msg = str(e)
+                    if "failed to complete" in msg or "Cannot make" in msg:
+                        res.count("reported_failure")
+                        continue
+                    res.violation("exception", {"model": "context_pair", "method": method, "error": type(e).__name__}, case, "%s: %s" % (type(e).__name__, msg[:300]))
+
+
 def configs(md, quick):
     backward = max_lead(md) == 0
     out = []
@@ -373,6 +433,10 @@ def configs(md, quick):
 
 
 def shard(item, res, ctx):
+    if item["part"] == "context":
+        check_context_pair(res)
+        res.sample({"part": "context", "models": "same equation text, three different resp() functions, two simulation orders"})
+        return
     md = [x for x in models() if x["name"] == item["model"]][0]
     m = build(md)
     S = input_singles(md)
@@ -411,18 +475,23 @@ def run(ctx, total, info):
         else:
             for lo in range(0, n_pairs, 25):
                 shards.append({"model": md["name"], "part": "pairs", "lo": lo, "hi": lo + 25})
+    shards.append({"part": "context", "model": "context_pair"})
     engine.run_shards(__name__, "shard", shards, ctx, total)
     c = total.counters
     info["exhaustive"] = True
     info["bound_completed"] = 2
     info["floors"] = {"successful_runs": (len(total.nontrivial), 700), "stacked_time": (c.get("success_stacked_time", 0), 650),
-                      "period_by_period": (c.get("success_period_by_period", 0), 50), "variant_runs": (c.get("variant_runs", 0), 9)}
+                      "period_by_period": (c.get("success_period_by_period", 0), 50), "variant_runs": (c.get("variant_runs", 0), 9),
+                      "context_pair_runs": (c.get("context_pair_runs", 0), 8)}
     for md in models():
         info["floors"]["zero_input_" + md["name"]] = (c.get("zero_input_success_" + md["name"], 0), 4)
 
 
 def replay(case):
     res = engine.Result()
+    if case["model"].startswith("context_pair"):
+        check_context_pair(res)
+        return ["%s %s %s" % (v["check"], engine.sigkey(v["signature"]), v["detail"]) for v in res.violations]
     md = [x for x in models() if x["name"] == case["model"]][0]
     m = build(md)
     run_case(md, m, [tuple(i) for i in case["inputs"]], case["n_per"], case["method"], case["terminal"], case["guess"], res)
